@@ -20,13 +20,22 @@ Re-stated statement by statement over `DS.DSetData` (= `PartialDSet`):
   stands for non-termination of the Rust loop (never reached on complete D-sets whose
   operations are involutions, resp. when the removed set does not contain a whole
   (connector, i)-orbit).
-* `split_and_glue` / `network_cut` iterate a `HashSet` to pick `start` (DESIGN §5.9) and are
-  not modelled; `simplify` as a whole is observed through the Spec only.
+* `network_cut` picks `start` with `marked.iter().find(..)` over a `HashSet` (per-instance random
+  iteration order, DESIGN §5.9).  `networkCut` / `splitAndGlue` are therefore functions of an
+  explicit choice: the order `iter` in which the members of `marked` are visited.  Everything else
+  in `network_edges`, `cut_with_insides`, `cut_pairs_in_order`, `make_key`,
+  `split_and_glue_attempt` and the driver loop of `split_and_glue` is deterministic (the two
+  `HashSet`s of `network_edges` only feed a `BTreeSet`; `marked` / `special` are otherwise only
+  asked `contains`).  `simplify` as a whole is observed through the Spec only.
+* further unbounded loops: the two inner `while`s of `cut_pairs_in_order` (fuel `size + 1`: they
+  walk along one face) and its outer loop (fuel `(size + 2)²`: at most `size + 1` rounds push a
+  pair, and more than `size` rounds in a row without a push repeat a chamber, i.e. never end).
 * Several callers pass `1..ds.size()` (exclusive upper bound) as the seeds of `orbit_reps`:
   modelled as written (`seedsExcl`).
 -/
 import DSymVerif.Model.DSym
 import DSymVerif.Model.FundGroup
+import DSymVerif.Model.Cutsets
 
 namespace DSymVerif.Simp
 open DSymVerif DSymVerif.DS
@@ -572,5 +581,334 @@ def networkEdges (ds : DSetData) (d : Nat) (edgeMode : Bool) (e2i : Array Nat) (
   let d3 ← opx ds 3 d
   let vOut ← mapIdx e2i (ds.viewPartial.orbit [0, 1] d3)
   pure (edges ++ (View.sortDedup vIn).map (fun v => (source, v)) ++ (View.sortDedup vOut).map (fun v => (v, sink)))
+
+/-! ### cut_with_insides, make_key -/
+
+/-- `cut_with_insides(cut_raw, reps, ds, d)`: the chambers of the face of `d`, then one chamber
+    (`reps[v]`) per cut vertex, then one per inside vertex that is a skeleton vertex (source and
+    sink are filtered out by `v < reps.len()`; the cut vertices are indexed unfiltered) -/
+def cutWithInsides (cutV insideV reps : List Nat) (ds : DSetData) (d : Nat) : Outcome (List Nat) :=
+  match mapIdx reps.toArray cutV with
+  | .ok cutReps =>
+    (match mapIdx reps.toArray (insideV.filter (· < reps.length)) with
+     | .ok insideReps => .ok (ds.viewPartial.orbit [0, 1] d ++ cutReps ++ insideReps)
+     | .err => .err
+     | .panic => .panic)
+  | .err => .err
+  | .panic => .panic
+
+/-- `ds.walk(d, [1, 0, 1]) != Some(e)`: the pair is not joined by an edge of its face -/
+def notAlongEdge (ds : DSetData) (p : Nat × Nat) : Bool :=
+  ds.viewPartial.walk p.1 [1, 0, 1] != some p.2
+
+/-- `make_key(ds_in, d, ordered)` = (cut length − glue face length, cut length, number of pairs
+    that cut across a face) -/
+def makeKey (ds : DSetData) (d : Nat) (ordered : List (Nat × Nat)) : Outcome (Int × Nat × Nat) :=
+  match ds.viewPartial.r 0 1 d with
+  | .ok (some glue) =>
+    .ok ((ordered.length : Int) - (glue : Int), ordered.length, (ordered.filter (notAlongEdge ds)).length)
+  | .ok none => .panic
+  | .err => .err
+  | .panic => .panic
+
+/-! ### cut_pairs_in_order -/
+
+/-- `set.contains(&x)` for a `HashSet<usize>` collected from `xs`, asked about chambers only -/
+def memFn (size : Nat) (xs : List Nat) : Nat → Bool :=
+  let a := markOf size xs
+  fun x => a.getD x false
+
+/-- `while marked.contains(&ds.op(0, e).unwrap()) { e = ds.walk(e, [0, 1]).unwrap(); }` -/
+def cpInner (ds : DSetData) (marked : Nat → Bool) : Nat → Nat → Outcome Nat
+  | 0, _ => .panic
+  | fuel + 1, e =>
+    match ds.opPartial 0 e with
+    | none => .panic
+    | some e0 =>
+      if marked e0 then
+        (match ds.viewPartial.walk e [0, 1] with
+         | none => .panic
+         | some e' => cpInner ds marked fuel e')
+      else .ok e
+
+/-- `while ds.op(1, d) != Some(e) { result.push((d, ds.walk(d, [1, 0, 1]).unwrap()));
+    d = ds.walk(d, [1, 0]).unwrap(); }` — returns the pairs pushed -/
+def cpSpecial (ds : DSetData) (e : Nat) : Nat → Nat → List (Nat × Nat) → Outcome (List (Nat × Nat))
+  | 0, _, _ => .panic
+  | fuel + 1, d, acc =>
+    if ds.opPartial 1 d = some e then .ok acc
+    else
+      match ds.viewPartial.walk d [1, 0, 1] with
+      | none => .panic
+      | some w =>
+        (match ds.viewPartial.walk d [1, 0] with
+         | none => .panic
+         | some d' => cpSpecial ds e fuel d' (acc ++ [(d, w)]))
+
+/-- one round of the outer loop of `cut_pairs_in_order` at chamber `d`: the pairs it pushes and the
+    chamber the next round starts from -/
+def cpStep (ds : DSetData) (marked special : Nat → Bool) (d : Nat) : Outcome (List (Nat × Nat) × Nat) :=
+  match ds.opPartial 1 d with
+  | none => .panic
+  | some e0 =>
+    match cpInner ds marked (ds.size + 1) e0 with
+    | .ok e =>
+      let pushed : Outcome (List (Nat × Nat)) :=
+        if special d then cpSpecial ds e (ds.size + 1) d []
+        else if e0 ≠ e then .ok [(d, e)] else .ok []
+      (match pushed with
+       | .ok c =>
+         (match ds.opPartial 2 e with
+          | none => .panic
+          | some d' => .ok (c, d'))
+       | .err => .err
+       | .panic => .panic)
+    | .err => .err
+    | .panic => .panic
+
+/-- `while result.len() < ds.size() + 1 { …; d = ds.op(2, e).unwrap(); if d == start { break; } }` -/
+def cpOuter (ds : DSetData) (marked special : Nat → Bool) (start : Nat) :
+    Nat → Nat → List (Nat × Nat) → Outcome (List (Nat × Nat))
+  | 0, _, _ => .panic
+  | fuel + 1, d, result =>
+    if result.length < ds.size + 1 then
+      match cpStep ds marked special d with
+      | .ok (c, d') =>
+        if d' = start then .ok (result ++ c) else cpOuter ds marked special start fuel d' (result ++ c)
+      | .err => .err
+      | .panic => .panic
+    else .ok result
+
+/-- `cut_pairs_in_order(ds, start, marked, special)` -/
+def cutPairsInOrder (ds : DSetData) (start : Nat) (marked special : Nat → Bool) : Outcome (List (Nat × Nat)) :=
+  cpOuter ds marked special start ((ds.size + 2) * (ds.size + 2)) start []
+
+/-! ### network_cut as a function of the iteration order of `marked` -/
+
+/-- the two `HashSet`s of `network_cut`, as the lists they are collected from -/
+structure CutPre where
+  marked : List Nat
+  special : List Nat
+  deriving Repr
+
+/-- `network_cut` up to the choice of `start` -/
+def networkCutPre (ds : DSetData) (d : Nat) (edgeMode : Bool) : Outcome CutPre :=
+  match makeSkeleton ds with
+  | .ok (e2i, reps, edges) =>
+    let source := skelSource e2i
+    let sink := source + 1
+    (match networkEdges ds d edgeMode e2i edges source sink with
+     | .ok net =>
+       (match Cut.minVertexCutUndirected net source sink with
+        | .ok raw =>
+          (match cutWithInsides raw.cut raw.inside reps ds d with
+           | .ok ins =>
+             (match opx ds 3 d with
+              | .ok d3 =>
+                .ok { marked := ins.flatMap (fun e => ds.viewPartial.orbit [1, 2] e),
+                      special := ds.viewPartial.orbit [0, 1] d3 }
+              | .err => .err
+              | .panic => .panic)
+           | .err => .err
+           | .panic => .panic)
+        | .err => .err
+        | .panic => .panic)
+     | .err => .err
+     | .panic => .panic)
+  | .err => .err
+  | .panic => .panic
+
+/-- `iter.find(|&&e| !marked.contains(&ds.op(0, e).unwrap()))` over the members in the order `iter` -/
+def findStart (ds : DSetData) (marked : Nat → Bool) : List Nat → Outcome (Option Nat)
+  | [] => .ok none
+  | e :: rest =>
+    match ds.opPartial 0 e with
+    | none => .panic
+    | some e0 => if !marked e0 then .ok (some e) else findStart ds marked rest
+
+/-- the chambers `find` can return on a D-set whose operation 0 is defined on `marked`:
+    the admissible starts, ascending -/
+def admissibleStarts (ds : DSetData) (marked : List Nat) : List Nat :=
+  (View.sortDedup marked).filter fun e =>
+    match ds.opPartial 0 e with
+    | some e0 => !(memFn ds.size marked e0)
+    | none => false
+
+/-- `network_cut(ds, d, edge_mode)`; `iter` maps the list `marked` is collected from to the order in
+    which the `HashSet` hands out its (distinct) members -/
+def networkCut (ds : DSetData) (d : Nat) (edgeMode : Bool) (iter : List Nat → List Nat) :
+    Outcome (Option (List (Nat × Nat))) :=
+  match networkCutPre ds d edgeMode with
+  | .ok pre =>
+    let marked := memFn ds.size pre.marked
+    (match findStart ds marked (iter pre.marked) with
+     | .ok (some start) =>
+       (match cutPairsInOrder ds start marked (memFn ds.size pre.special) with
+        | .ok r => .ok (some r)
+        | .err => .err
+        | .panic => .panic)
+     | .ok none => .ok none
+     | .err => .err
+     | .panic => .panic)
+  | .err => .err
+  | .panic => .panic
+
+/-! ### split_and_glue_attempt -/
+
+/-- the `for (d, e) in ordered` loop: the D-set after the face cuts and `cut_chambers`;
+    `.ok none` = the early `return None` -/
+def sgCuts : DSetData → List (Nat × Nat) → List Nat → Outcome (Option (DSetData × List Nat))
+  | ds, [], cut => .ok (some (ds, cut))
+  | ds, (d, e) :: rest, cut =>
+    let dsO : Outcome (Option DSetData) :=
+      if ds.viewPartial.walk d [1, 0, 1] ≠ some e then
+        if (ds.viewPartial.orbit [0, 1] d).contains e then
+          (match cutFace ds d e with
+           | .ok s => .ok (some s)
+           | .err => .err
+           | .panic => .panic)
+        else .ok none
+      else .ok (some ds)
+    match dsO with
+    | .ok (some ds') =>
+      (match opx ds' 1 d, opx ds' 1 e with
+       | .ok a, .ok b => sgCuts ds' rest (cut ++ [a, b])
+       | .panic, _ => .panic
+       | _, .panic => .panic
+       | _, _ => .err)
+    | .ok none => .ok none
+    | .err => .err
+    | .panic => .panic
+
+/-- `split_and_glue_attempt(ds, glue_chamber, ordered)` -/
+def splitAndGlueAttempt (ds0 : DSetData) (glue : Nat) (ordered : List (Nat × Nat)) : Step :=
+  match asDSet ds0 with
+  | .ok ds =>
+    (match sgCuts ds ordered [] with
+     | .ok (some (ds1, cut)) =>
+       (match cutTile ds1 cut with
+        | .ok ds2 => collapse (.dset ds2) (ds2.viewPartial.orbit [0, 1, 3] glue) 3
+        | .err => .err
+        | .panic => .panic)
+     | .ok none => .ok none
+     | .err => .err
+     | .panic => .panic)
+  | .err => .err
+  | .panic => .panic
+
+/-! ### split_and_glue -/
+
+/-- an entry of `cuts`: `(key, (d, ordered))` -/
+structure CutEntry where
+  key : Int × Nat × Nat
+  d : Nat
+  ordered : List (Nat × Nat)
+  deriving Repr, DecidableEq
+
+/-- derived `Ord` of `Vec<(usize, usize)>` (lexicographic, a proper prefix is smaller) -/
+def pairsLt : List (Nat × Nat) → List (Nat × Nat) → Bool
+  | [], [] => false
+  | [], _ :: _ => true
+  | _ :: _, [] => false
+  | a :: as, b :: bs => pairLt a b || (a == b && pairsLt as bs)
+
+/-- derived `Ord` of `((isize, usize, usize), (usize, Vec<(usize, usize)>))`, strict -/
+def CutEntry.lt (a b : CutEntry) : Bool :=
+  if a.key.1 ≠ b.key.1 then decide (a.key.1 < b.key.1)
+  else if a.key.2.1 ≠ b.key.2.1 then decide (a.key.2.1 < b.key.2.1)
+  else if a.key.2.2 ≠ b.key.2.2 then decide (a.key.2.2 < b.key.2.2)
+  else if a.d ≠ b.d then decide (a.d < b.d)
+  else pairsLt a.ordered b.ordered
+
+/-- insertion into a sorted list, after the entries that are not greater (stable) -/
+def cutInsert (x : CutEntry) : List CutEntry → List CutEntry
+  | [] => [x]
+  | y :: ys => if x.lt y then x :: y :: ys else y :: cutInsert x ys
+
+/-- `cuts.sort()` -/
+def cutSort (l : List CutEntry) : List CutEntry := l.foldl (fun acc x => cutInsert x acc) []
+
+/-- one round of the two collecting loops: `if let Some(ordered) = network_cut(..) { let key =
+    make_key(..); if keep(key.0) { cuts.push(..) } }` -/
+def sgCollectOne (ds : DSetData) (edgeMode : Bool) (keep : Int → Bool) (iter : Nat → Bool → List Nat → List Nat)
+    (d : Nat) (cuts : List CutEntry) : Outcome (List CutEntry) :=
+  match networkCut ds d edgeMode (iter d edgeMode) with
+  | .ok (some ordered) =>
+    (match makeKey ds d ordered with
+     | .ok key => .ok (if keep key.1 then cuts ++ [{ key := key, d := d, ordered := ordered }] else cuts)
+     | .err => .err
+     | .panic => .panic)
+  | .ok none => .ok cuts
+  | .err => .err
+  | .panic => .panic
+
+/-- `for d in ds_in.orbit_reps([0, 1, 3], 1..=ds_in.size())` (face mode, keys with `key.0 < 0`) -/
+def sgCollectFaces (ds : DSetData) (iter : Nat → Bool → List Nat → List Nat) :
+    List Nat → List CutEntry → Outcome (List CutEntry)
+  | [], cuts => .ok cuts
+  | d :: rest, cuts =>
+    match sgCollectOne ds false (fun k => decide (k < 0)) iter d cuts with
+    | .ok cuts' => sgCollectFaces ds iter rest cuts'
+    | .err => .err
+    | .panic => .panic
+
+/-- `for d in ds_in.orbit_reps([0], 1..=ds_in.size())` (edge mode, edges of degree 3 only, keys with
+    `key.0 == 0`) -/
+def sgCollectEdges (ds : DSetData) (iter : Nat → Bool → List Nat → List Nat) :
+    List Nat → List CutEntry → Outcome (List CutEntry)
+  | [], cuts => .ok cuts
+  | d :: rest, cuts =>
+    match ds.viewPartial.r 2 3 d with
+    | .ok r23 =>
+      if r23 ≠ some 3 then sgCollectEdges ds iter rest cuts
+      else
+        (match sgCollectOne ds true (fun k => decide (k = 0)) iter d cuts with
+         | .ok cuts' => sgCollectEdges ds iter rest cuts'
+         | .err => .err
+         | .panic => .panic)
+    | .err => .err
+    | .panic => .panic
+
+/-- what the body of the last loop of `split_and_glue` computes for one entry:
+    `split_and_glue_attempt(..)`, for `key.0 == 0` followed by `.and_then(|r| merge_facets(&r))`
+    (so an attempt whose result `merge_facets` declines to change is dropped) -/
+def sgTry (ds : DSetData) (c : CutEntry) : Step :=
+  match splitAndGlueAttempt ds c.d c.ordered with
+  | .ok (some r) => if c.key.1 = 0 then mergeFacets r else .ok (some r)
+  | o => o
+
+/-- `for (key, (glue_chamber, ordered)) in cuts { … }`: the first attempt that yields a smaller
+    D-set wins -/
+def sgFirst (ds : DSetData) : List CutEntry → Step
+  | [] => .ok none
+  | c :: rest =>
+    match sgTry ds c with
+    | .ok (some (.dset out)) => if out.size < ds.size then .ok (some (.dset out)) else sgFirst ds rest
+    | .ok (some .empty) => sgFirst ds rest
+    | .ok none => sgFirst ds rest
+    | .err => .err
+    | .panic => .panic
+
+/-- the sorted list `cuts` of `split_and_glue` -/
+def sgCuts? (ds : DSetData) (iter : Nat → Bool → List Nat → List Nat) : Outcome (List CutEntry) :=
+  match sgCollectFaces ds iter (ds.viewPartial.orbitReps [0, 1, 3] (seedsIncl ds)) [] with
+  | .ok cuts1 =>
+    (match sgCollectEdges ds iter (ds.viewPartial.orbitReps [0] (seedsIncl ds)) cuts1 with
+     | .ok cuts2 => .ok (cutSort cuts2)
+     | .err => .err
+     | .panic => .panic)
+  | .err => .err
+  | .panic => .panic
+
+/-- `split_and_glue(input)`; `iter d edge_mode` is the iteration order of the `HashSet` `marked`
+    inside the call `network_cut(ds, d, edge_mode)` -/
+def splitAndGlue (input : DOE) (iter : Nat → Bool → List Nat → List Nat) : Step :=
+  match input with
+  | .empty => .ok none
+  | .dset ds =>
+    match sgCuts? ds iter with
+    | .ok cuts => sgFirst ds cuts
+    | .err => .err
+    | .panic => .panic
 
 end DSymVerif.Simp
